@@ -20,7 +20,7 @@ RULE = ("for each of 20 element universes of 2-5 values (f64, f64 with +0/-0, f3
         "each operand written as a sequence of <= 6 elements (<= 5 / 3 for nested kinds in quick: the parser is exponential in nesting depth) in a "
         "random insertion order with random repetitions, under union, intersection, difference, symmetric difference, subset, proper subset, "
         "superset, proper superset (both spellings); membership / non-membership of universe values in every subset; every subset built by "
-        "literal, through a variable, by typed matrix conversion and by identity comprehension over a set / a matrix; all 24 orders of 4 elements for "
+        "literal, through a variable, by typed matrix conversion and by identity comprehension over a set / a matrix; all 24 (quick: 8) orders of 4 elements for "
         "5 kinds; sets whose literal lists variables; comprehensions of 22 shapes (1-2 generators over sets / inline sets / matrices; "
         "variable, tuple, wildcard and repeated-variable patterns; 0-2 filters with == != < > <= >= against constants and between variables, "
         "also between the generators; outputs x, y, (x,y), (y,x), (x,x), constants); operands of different kinds; mixed-kind literals. "
